@@ -109,6 +109,35 @@ func gaugeCalls(fn *ssa.Function, method string) []*ssa.Call {
 	return out
 }
 
+// setStoresOnlyTrue: every write into a per-session subscription set of reqCounter
+// (a map[string]bool) stores the constant true — so reading the value is reading membership.
+func setStoresOnlyTrue(c *core.Ctx) bool {
+	ok, n := true, 0
+	for _, fn := range c.P.ModFuncs {
+		root := fn
+		for root.Parent() != nil {
+			root = root.Parent()
+		}
+		if recvTypeName(root) != "reqCounter" {
+			continue
+		}
+		an.Instrs(fn, func(in ssa.Instruction) {
+			mu, isMU := in.(*ssa.MapUpdate)
+			if !isMU {
+				return
+			}
+			if bt, isB := mu.Value.Type().Underlying().(*types.Basic); !isB || bt.Kind() != types.Bool {
+				return
+			}
+			n++
+			if !isConstBool(mu.Value, true) {
+				ok = false
+			}
+		})
+	}
+	return ok && n > 0
+}
+
 func runPromGauge(c *core.Ctx) {
 	P := c.P
 	// connection gauge: Inc in Start, Dec in End, nothing else
@@ -167,6 +196,10 @@ func runPromGauge(c *core.Ctx) {
 				if promNorm(o.Path(g.V)) == "ok("+e+")" && !g.True {
 					absent = true
 				}
+				// membership read as the stored bool (`if subs[id] { return }`): the set only ever stores true
+				if lk, isLk := g.V.(*ssa.Lookup); isLk && !lk.CommaOk && promNorm(o.Path(g.V)) == e && !g.True && setStoresOnlyTrue(c) {
+					absent = true
+				}
 			}
 			good = ins && absent
 			detail = fmt.Sprintf("Inc with insert of the entry in the same block: %v, only when the entry was absent: %v", ins, absent)
@@ -205,6 +238,9 @@ func runPromGauge(c *core.Ctx) {
 			present := false
 			for _, g := range an.Guards(host, call.Block()) {
 				if promNorm(o.Path(g.V)) == "ok("+e+")" && g.True {
+					present = true
+				}
+				if lk, isLk := g.V.(*ssa.Lookup); isLk && !lk.CommaOk && promNorm(o.Path(g.V)) == e && g.True && setStoresOnlyTrue(c) {
 					present = true
 				}
 			}
